@@ -17,6 +17,7 @@ while [ $i -lt $N ]; do
   else
     rsync -a --exclude .cache --exclude .git --exclude 'lean/.lake' --exclude 'harness/target' --exclude harness/Cargo.toml --exclude harness/.cargo --exclude setup.sh --exclude check --exclude seeded/STATUS.json /verif/ $D/verif/
     sed "s#^REPO = \"/repo\"#REPO = \"$D/repo\"#" /verif/check > $D/verif/check
+  sed "s#/repo/#$D/repo/#g" /verif/harness/Cargo.toml > $D/verif/harness/Cargo.toml
   fi
   rm -f $D/verif/seeded/STATUS.json
   i=$((i+1))
